@@ -910,3 +910,245 @@ Section Obs.
     apply (Permutation_map fst) in HP. now rewrite !map_fst_combine in HP by now rewrite vn_length, map_length.
   Qed.
 End Obs.
+
+(* ------------------------------------------------------------ strict order, label level *)
+(* When the stage-1 (key) order consists of complete volumes followed by at most one
+   incomplete volume, the output is exactly the complete volumes, in key order, each with
+   its slices 1..slice_max in order. *)
+Lemma vna_app seen a b :
+  vol_numbers_aux seen (a ++ b) = vol_numbers_aux seen a ++ vol_numbers_aux (rev a ++ seen) b.
+Proof.
+  revert seen; induction a as [|x a IH]; intros seen; [reflexivity|].
+  cbn [app vol_numbers_aux rev]. rewrite IH. now rewrite <- app_assoc.
+Qed.
+
+Lemma vna_block seen a k : NoDup a -> (forall s, In s a -> cnt seen s = k) ->
+  vol_numbers_aux seen a = repeat (Z.of_nat k) (length a).
+Proof.
+  revert seen; induction a as [|x a IH]; intros seen N H; [reflexivity|].
+  inversion N as [|? ? Hx Na]; subst. cbn [vol_numbers_aux length repeat].
+  rewrite (H x) by now left. f_equal. apply IH; [assumption|].
+  intros s Hs. rewrite count_occ_cons_neq by (intros ->; contradiction). apply H. now right.
+Qed.
+
+Lemma zrange_NoDup lo hi : NoDup (zrange lo hi).
+Proof.
+  unfold zrange. apply FinFun.Injective_map_NoDup; [|apply seq_NoDup]. intros a b E. lia.
+Qed.
+
+Lemma cnt_zrange lo hi s : cnt (zrange lo hi) s = if (lo <=? s) && (s <=? hi) then 1%nat else 0%nat.
+Proof.
+  destruct ((lo <=? s) && (s <=? hi)) eqn:E.
+  - apply NoDup_count_occ'; [apply zrange_NoDup|]. apply zrange_In. lia.
+  - apply count_occ_not_In. rewrite zrange_In. lia.
+Qed.
+
+Fixpoint blocks (k m n : nat) : list Z :=
+  match m with O => [] | S m' => repeat (Z.of_nat k) n ++ blocks (S k) m' n end.
+
+Definition complete_group (smax : Z) (G : list rec) : Prop := map sl G = zrange 1 smax.
+
+Lemma cnt_groups smax Gs s : Forall (complete_group smax) Gs -> 1 <= s <= smax ->
+  cnt (map sl (concat Gs)) s = length Gs.
+Proof.
+  intros F Hs. induction F as [|G Gs HG F IH]; [reflexivity|].
+  cbn [concat length]. rewrite map_app, count_occ_app, IH, HG, cnt_zrange.
+  destruct ((1 <=? s) && (s <=? smax)) eqn:E; lia.
+Qed.
+
+Lemma vna_groups smax Gs : forall seen k tl_,
+  (forall s, 1 <= s <= smax -> cnt seen s = k) -> Forall (complete_group smax) Gs ->
+  NoDup tl_ -> (forall s, In s tl_ -> 1 <= s <= smax) ->
+  vol_numbers_aux seen (map sl (concat Gs) ++ tl_) =
+  blocks k (length Gs) (length (zrange 1 smax)) ++ repeat (Z.of_nat (k + length Gs)) (length tl_).
+Proof.
+  induction Gs as [|G Gs IH]; intros seen k tl_ Hk F N R.
+  - cbn [concat map app length blocks]. rewrite Nat.add_0_r. apply vna_block; [assumption|].
+    intros s Hs. apply Hk. now apply R.
+  - inversion F as [|? ? HG F']; subst. cbn [concat length blocks]. rewrite map_app, <- app_assoc, vna_app, HG.
+    rewrite (vna_block seen (zrange 1 smax) k) by (try apply zrange_NoDup; intros s Hs; apply Hk; now apply zrange_In).
+    rewrite <- app_assoc. f_equal.
+    rewrite (IH (rev (zrange 1 smax) ++ seen) (S k) tl_); try assumption.
+    + now rewrite Nat.add_succ_comm.
+    + intros s Hs. rewrite count_occ_app, count_occ_rev, cnt_zrange, (Hk s Hs).
+      destruct ((1 <=? s) && (s <=? smax)) eqn:E; lia.
+Qed.
+
+Lemma blocks_In k m n v : In v (blocks k m n) -> exists i, v = Z.of_nat i /\ (k <= i < k + m)%nat.
+Proof.
+  revert k; induction m as [|m IH]; intros k H; [destruct H|].
+  cbn [blocks] in H. apply in_app_or in H. destruct H as [H|H].
+  - apply repeat_spec in H. exists k. split; [assumption|lia].
+  - destruct (IH _ H) as [i [E Hi]]. exists i. split; [assumption|lia].
+Qed.
+
+Lemma blocks_length k m n : length (blocks k m n) = (m * n)%nat.
+Proof. revert k; induction m as [|m IH]; intros k; [reflexivity|]. cbn. rewrite app_length, repeat_length, IH. lia. Qed.
+
+Lemma sorted_app_le (a b : list Z) (k : Z) :
+  StronglySorted Z.le a -> StronglySorted Z.le b -> (forall x, In x a -> x <= k) -> (forall y, In y b -> k <= y) ->
+  StronglySorted Z.le (a ++ b).
+Proof.
+  intros Sa Sb Ha Hb. induction Sa as [|x a Sa IH Fx]; [assumption|]. cbn. constructor.
+  - apply IH. intros y Hy. apply Ha. now right.
+  - rewrite Forall_forall in *. intros y Hy. apply in_app_or in Hy. destruct Hy as [Hy|Hy]; [now apply Fx|].
+    specialize (Ha x (or_introl eq_refl)). specialize (Hb y Hy). lia.
+Qed.
+
+Lemma repeat_sorted (x : Z) n : StronglySorted Z.le (repeat x n).
+Proof.
+  induction n as [|n IH]; cbn; constructor; [assumption|].
+  rewrite Forall_forall. intros y Hy. apply repeat_spec in Hy. lia.
+Qed.
+
+Lemma blocks_sorted k m n : StronglySorted Z.le (blocks k m n).
+Proof.
+  revert k; induction m as [|m IH]; intros k; [constructor|]. cbn [blocks].
+  apply (sorted_app_le _ _ (Z.of_nat k)); [apply repeat_sorted|apply IH| |].
+  - intros x Hx. apply repeat_spec in Hx. lia.
+  - intros y Hy. apply blocks_In in Hy. destruct Hy as [i [-> Hi]]. lia.
+Qed.
+
+Lemma isort_sorted_id {A} (le : A -> A -> bool) l :
+  StronglySorted (fun a b => le a b = true) l -> isort le l = l.
+Proof.
+  intros S. induction S as [|x l S IH F]; [reflexivity|].
+  cbn [isort fold_right]. fold (isort le l). rewrite IH.
+  destruct l as [|y r]; [reflexivity|]. cbn [insert]. inversion F as [|? ? Hy _]; subst. now rewrite Hy.
+Qed.
+
+Lemma k2_mono (m : Z) (a b : ann) :
+  snd (snd a) = (fst (snd a) <? m) -> snd (snd b) = (fst (snd b) <? m) -> fst (snd a) <= fst (snd b) ->
+  key_le (k2 a) (k2 b) = true.
+Proof.
+  destruct a as [ra [va fa]], b as [rb [vb fb0]]. cbn [fst snd]. intros -> -> H.
+  unfold k2, key2, key_le. cbn [fst snd rev app lex_le].
+  destruct (Z.ltb_spec va m), (Z.ltb_spec vb m); cbn [negb b2z]; try lia;
+    repeat (match goal with |- context [?x <? ?y] => destruct (Z.ltb_spec x y); try lia end); reflexivity.
+Qed.
+
+Lemma annot_sorted (m : Z) (AL : list ann) :
+  StronglySorted Z.le (map (fun a : ann => fst (snd a)) AL) ->
+  (forall a, In a AL -> snd (snd a) = (fst (snd a) <? m)) ->
+  StronglySorted (fun a b => key_le (k2 a) (k2 b) = true) AL.
+Proof.
+  induction AL as [|a AL IH]; intros S H; [constructor|].
+  cbn [map] in S. inversion S as [|? ? S' F]; subst. constructor.
+  - apply IH; [assumption|]. intros b Hb. apply H. now right.
+  - rewrite Forall_forall in *. intros b Hb. apply (k2_mono m).
+    + apply H. now left. + apply H. now right.
+    + apply F. apply (in_map (fun a : ann => fst (snd a))). exact Hb.
+Qed.
+
+Lemma map_vn_combine {A} (L : list A) (vn : list Z) (full : list bool) :
+  length L = length vn -> length vn = length full ->
+  map (fun a : A * (Z * bool) => fst (snd a)) (combine L (combine vn full)) = vn.
+Proof.
+  revert vn full; induction L as [|x L IH]; intros [|v vn] [|b full] H1 H2; cbn in *; try lia; try reflexivity.
+  f_equal. apply IH; lia.
+Qed.
+
+Lemma in_annot_map {A} (g : Z -> bool) (L : list A) (vn : list Z) a :
+  In a (combine L (combine vn (map g vn))) -> snd (snd a) = g (fst (snd a)).
+Proof.
+  revert vn; induction L as [|x L IH]; intros [|v vn] H; cbn in H; try tauto.
+  destruct H as [<-|H]; [reflexivity|now apply IH in H].
+Qed.
+
+Lemma filter_true_count (g : Z -> bool) (vn : list Z) :
+  length (filter (fun b : bool => b) (map g vn)) = length (filter g vn).
+Proof. induction vn as [|v vn IH]; [reflexivity|]. cbn. destruct (g v); cbn; now rewrite IH. Qed.
+
+Lemma filter_all_true {A} (p : A -> bool) l : (forall x, In x l -> p x = true) -> filter p l = l.
+Proof.
+  induction l as [|x l IH]; intros H; [reflexivity|]. cbn. rewrite (H x) by now left.
+  f_equal. apply IH. intros y Hy. apply H. now right.
+Qed.
+
+Lemma filter_blocks_lt k m n t :
+  filter (fun v => v <? Z.of_nat (k + m)) (blocks k m n ++ repeat (Z.of_nat (k + m)) t) = blocks k m n.
+Proof.
+  rewrite filter_app.
+  assert (filter (fun v => v <? Z.of_nat (k + m)) (repeat (Z.of_nat (k + m)) t) = []) as ->.
+  { induction t as [|t IH]; [reflexivity|]. cbn. now rewrite Z.ltb_irrefl. }
+  rewrite app_nil_r. apply filter_all_true. intros v Hv.
+  apply blocks_In in Hv. destruct Hv as [i [-> Hi]]. lia.
+Qed.
+
+(* C20_strict_complete_volumes *)
+Lemma strict_complete_volumes smax recs Gs T idx :
+  stage1 recs = concat Gs ++ T -> Gs <> [] -> 1 <= smax ->
+  Forall (complete_group smax) Gs ->
+  NoDup (map sl T) -> (forall s, In s (map sl T) -> 1 <= s <= smax) ->
+  (exists s0, 1 <= s0 <= smax /\ ~ In s0 (map sl T)) ->
+  sorted_slice_indices true smax recs = Some idx ->
+  select dummy idx recs = concat Gs.
+Proof.
+  intros HL HG Hs F NT RT [s0 [Hs0 Ns0]] SI.
+  set (L := stage1 recs) in *. set (m := length Gs). set (n := length (zrange 1 smax)).
+  set (sn := map sl L).
+  assert (Esn : sn = map sl (concat Gs) ++ map sl T) by (unfold sn; now rewrite HL, map_app).
+  (* volume numbers of the key-ordered records *)
+  assert (Evn : vol_numbers sn = blocks 0 m n ++ repeat (Z.of_nat m) (length T)).
+  { unfold vol_numbers. rewrite Esn, (vna_groups smax Gs [] 0%nat (map sl T)); try assumption.
+    - now rewrite map_length. - reflexivity. }
+  (* the slice numbers are in range, so vol_is_full answers *)
+  destruct (vol_is_full_spec sn smax) as [[IR [full [E [LF S]]]]|[NR _]].
+  2:{ exfalso. apply NR. intros s Hin. rewrite Esn in Hin. apply in_app_or in Hin. destruct Hin as [Hin|Hin]; [|now apply RT].
+      clear -Hin F. induction F as [|G Gs HG F IH]; [destruct Hin|]. cbn [concat] in Hin. rewrite map_app in Hin.
+      apply in_app_or in Hin. destruct Hin as [Hin|Hin]; [rewrite HG in Hin; now apply zrange_In|now apply IH]. }
+  assert (Cnt : forall s, 1 <= s <= smax -> cnt sn s = (m + cnt (map sl T) s)%nat).
+  { intros s Hr. rewrite Esn, count_occ_app. now rewrite (cnt_groups smax Gs s F Hr). }
+  assert (Efull : full = map (fun v => v <? Z.of_nat m) (vol_numbers sn)).
+  { rewrite (full_as_map sn smax full E) at 1. apply map_ext_in. intros v Hv.
+    pose proof (fb_fullv sn smax full v E Hv) as FB.
+    rewrite Evn in Hv. apply in_app_or in Hv.
+    destruct (Z.ltb_spec v (Z.of_nat m)) as [Hlt|Hge].
+    - apply FB. intros s Hr. apply vn_in. destruct Hv as [Hv|Hv].
+      + apply blocks_In in Hv. destruct Hv as [i [-> Hi]]. exists i. split; [reflexivity|]. rewrite (Cnt s Hr). lia.
+      + apply repeat_spec in Hv. lia.
+    - destruct (fb smax sn v) eqn:Efb; [|reflexivity]. exfalso.
+      assert (FV : fullv sn smax v) by now apply FB.
+      specialize (FV s0 Hs0). apply vn_in in FV. destruct FV as [k [-> Hk]].
+      rewrite (Cnt s0 Hs0), (proj1 (count_occ_not_In Z.eq_dec (map sl T) s0) Ns0) in Hk. lia. }
+  (* the second-stage sort leaves the key order unchanged *)
+  pose proof (ssi_valid true smax recs idx SI) as [_ IRg].
+  unfold sorted_slice_indices in SI.
+  destruct (strict_sort_order smax recs) as [order|] eqn:EO; [|discriminate].
+  destruct (n_used smax recs) as [nu|] eqn:ENU; [|discriminate]. inversion SI; subst idx. clear SI.
+  destruct (order_records true smax recs order EO) as [full' [E' R]]. cbn [base_of kf_of] in E', R.
+  fold L in E', R. fold sn in E'. rewrite E in E'. inversion E'; subst full'. clear E'.
+  assert (Lvn : length (vol_numbers sn) = length sn) by apply vn_length.
+  assert (Lsn : length sn = length L) by (unfold sn; apply map_length).
+  rewrite isort_sorted_id in R.
+  2:{ apply (annot_sorted (Z.of_nat m)).
+      - unfold annot. fold sn. rewrite map_vn_combine by lia. rewrite Evn.
+        apply (sorted_app_le _ _ (Z.of_nat m)); [apply blocks_sorted|apply repeat_sorted| |].
+        + intros x Hx. apply blocks_In in Hx. destruct Hx as [i [-> Hi]]. lia.
+        + intros y Hy. apply repeat_spec in Hy. lia.
+      - intros a Ha. unfold annot in Ha. fold sn in Ha. rewrite Efull in Ha. now apply in_annot_map in Ha. }
+  rewrite (annot_fst L smax full E) in R.
+  rewrite select_firstn, R.
+  (* the trim length is the number of records of the complete volumes *)
+  assert (Hnu : nu = (m * n)%nat).
+  { assert (PL : Permutation L recs) by apply stage1_perm.
+    assert (Ps : Permutation sn (map sl recs)) by (unfold sn; now apply Permutation_map).
+    assert (Cf : length (filter (fun b : bool => b) full) = (m * n)%nat).
+    { rewrite Efull, filter_true_count, Evn.
+      pose proof (filter_blocks_lt 0 m n (length T)) as FB0. cbn [Nat.add] in FB0. rewrite FB0. apply blocks_length. }
+    pose proof (full_count sn smax full E) as FC. rewrite Cf in FC.
+    pose proof (nvols_seq_perm _ _ smax Ps) as Q. unfold nvols_seq at 1 in Q. rewrite E in Q.
+    rewrite <- n_vols_seq in Q. unfold n_used in ENU. rewrite <- Q in ENU. inversion ENU as [ENU'].
+    unfold n_slices. rewrite <- (n_distinct_perm _ _ Ps).
+    set (nd := n_distinct sn) in *.
+    set (nv := n_distinct (map fst (filter snd (combine (vol_numbers sn) full)))) in *.
+    assert (Hm : (1 <= m)%nat) by (unfold m; destruct Gs; [contradiction|cbn; lia]).
+    assert (Hn : (1 <= n)%nat) by (unfold n, zrange; rewrite map_length, seq_length; lia).
+    assert (nv <> 0)%nat by (intros Z0; rewrite Z0 in FC; nia).
+    destruct (Nat.ltb_spec 1 nv); [lia|]. assert (nv = 1%nat) by lia. nia. }
+  rewrite Hnu, HL.
+  assert (Lc : length (concat Gs) = (m * n)%nat).
+  { clear -F. unfold m, n. induction F as [|G Gs HG F IH]; [reflexivity|]. cbn [concat length].
+    rewrite app_length, IH. apply (f_equal (@length Z)) in HG. rewrite map_length in HG. rewrite HG. lia. }
+  rewrite <- Lc. apply firstn_app_exact.
+Qed.
